@@ -71,19 +71,20 @@ Definition required (cls name : string) : option (list string) :=
 (* one row of the generated table agrees with the model:
    const member functions bump nothing; a classified mutator certainly reaches a bump of each required cell;
    a classified non-mutator reaches no bump in any instantiation; every non-const public member is classified *)
-Definition row_ok (row : string * string * list string * list string) : bool :=
-  let '(cls, meth, all, any) := row in
+Definition row_ok4 (cls meth : string) (all any : list string) : bool :=
   if ends_const meth then match any with [] => true | _ => false end
   else match required cls (name_of meth) with
        | None => false
        | Some [] => match any with [] => true | _ => false end
-       | Some req => subset_s req all
+       | Some (r :: rs) => subset_s (r :: rs) all
        end.
+Definition row_ok (row : string * string * list string * list string) : bool :=
+  row_ok4 (fst (fst (fst row))) (snd (fst (fst row))) (snd (fst row)) (snd row).
 
+Definition is_mutator (cls meth : string) : bool :=
+  negb (ends_const meth) && match required cls (name_of meth) with Some (_ :: _) => true | _ => false end.
 Definition mutator_rows : list (string * string * list string * list string) :=
-  filter (fun row => let '(cls, meth, _, _) := row in
-                     negb (ends_const meth) &&
-                     match required cls (name_of meth) with Some (_ :: _) => true | _ => false end) version_table.
+  filter (fun row => is_mutator (fst (fst (fst row))) (snd (fst (fst row)))) version_table.
 
 Lemma table_matches_model_holds : forallb row_ok version_table = true.
 Proof. vm_compute. reflexivity. Qed.
@@ -93,12 +94,14 @@ Lemma all_mutators_bump_holds :
     exists req, required cls (name_of meth) = Some req /\ req <> [] /\ subset_s req all = true.
 Proof.
   intros cls meth all any H.
-  unfold mutator_rows in H. apply filter_In in H. destruct H as [Hin Hf].
-  pose proof table_matches_model_holds as T. rewrite forallb_forall in T. specialize (T _ Hin).
-  cbv beta iota in Hf. apply andb_prop in Hf. destruct Hf as [Hc Hr].
-  unfold row_ok in T. apply negb_true_iff in Hc. rewrite Hc in T.
-  destruct (required cls (name_of meth)) as [[|r0 rs]|] eqn:E; try discriminate.
-  exists (r0 :: rs). split; [reflexivity|]. split; [discriminate|exact T].
+  unfold mutator_rows in H.
+  destruct (proj1 (filter_In _ (cls, meth, all, any) version_table) H) as [Hin Hf]. clear H.
+  pose proof (proj1 (forallb_forall row_ok version_table) table_matches_model_holds _ Hin) as T. clear Hin.
+  unfold row_ok in T. cbn [fst snd] in T, Hf. unfold row_ok4 in T. unfold is_mutator in Hf.
+  apply andb_prop in Hf. destruct Hf as [Hc Hr].
+  destruct (ends_const meth); [discriminate Hc|].
+  destruct (required cls (name_of meth)) as [[|r0 rs]|]; [discriminate Hr| |discriminate Hr].
+  exists (r0 :: rs). split; [reflexivity|]. split; [intro X; discriminate X|exact T].
 Qed.
 
 (* non-vacuity: the table really contains the mutators of all classes *)
